@@ -1,6 +1,7 @@
 import XModel.ManagerInv
 import XModel.ManagerC03b
 import XModel.ManagerC11
+import XModel.ManagerBisim
 /-!
 # C03 — removing or replacing a definition leaves no trace
 The four indices are a function of the surviving tasks (`Index.Inv`), preserved by `register'` (fresh
@@ -87,5 +88,58 @@ theorem C03_like_fresh_manager (s : MState) (ow : Bool) (hi : MInv s) (hfz : s.f
         ∀ s1, setValue sched1 s p v = (s1, none) →
           ∃ s2, setValue sched2 s' p v = (s2, none) ∧ s2.store = s1.store ∧ s2.defs = s1.defs :=
   load_dump_reacts_identically s ow hi hfz hex hc
+
+/-! ### wrappers of the model-level results (statements as printed by `#check`) -/
+section wrapped
+
+/-- **the manager's own consistency self-check passes** in every state reachable through the API (`MInv`): `verify()` raises nothing (the converse is false in the model and in the code: `verify` only walks the rows the indices still have) -/
+theorem C03_self_check_passes :
+    ∀ (s : Manager.MState), Manager.MInv s → (Manager.verify s).snd = none :=
+  @Manager.verify_passes
+
+/-- two managers holding the SAME task table over equal containers (`SameTable`: indices and event logs may differ, both satisfy the index invariant) answer ONE API call — any call: assignments of values and expressions, in-place operators, register, unregister, load, refresh, cleanup, verify — with the same outcome (same exception or none) and are `SameTable` again afterwards; assignments under the hypotheses of C20's order independence (`CallOK`) -/
+theorem C03_one_call_bisimulation :
+    ∀ (sched1 sched2 : Manager.Sched) (s s' : Manager.MState) (c : Manager.Call),
+      Manager.SameTable s s' →
+        Manager.CallOK sched1 sched2 s s' c →
+          (Manager.apply sched2 s' c).snd = (Manager.apply sched1 s c).snd ∧
+            Manager.SameTable (Manager.apply sched1 s c).fst (Manager.apply sched2 s' c).fst :=
+  @Manager.apply_bisim
+
+/-- … along whole histories: call by call the same exceptions -/
+theorem C03_history_same_outcomes :
+    ∀ (sched1 sched2 : Manager.Sched) (cs : List Manager.Call) (s s' : Manager.MState),
+      Manager.SameTable s s' →
+        Manager.BisimRun sched1 sched2 s s' cs →
+          List.map (fun x => x.snd) (Manager.outcomes sched2 s' cs) =
+            List.map (fun x => x.snd) (Manager.outcomes sched1 s cs) :=
+  @Manager.bisim_history_errors
+
+/-- … and `SameTable` at the end: a manager with a history of replaced and removed definitions and a fresh manager holding the surviving ones cannot be told apart by any further history of calls -/
+theorem C03_history_same_final_state :
+    ∀ (sched1 sched2 : Manager.Sched) (cs : List Manager.Call) (s s' : Manager.MState),
+      Manager.SameTable s s' →
+        Manager.BisimRun sched1 sched2 s s' cs →
+          Manager.SameTable (Manager.applyAll sched1 s cs) (Manager.applyAll sched2 s' cs) :=
+  @Manager.bisim_history_final
+
+/-- the fresh manager obtained by loading the dump is `SameTable` with the original and stays so along every good history (this is also C11's second sentence and C12's behavioural clause, now over histories of all calls instead of one assignment) -/
+theorem C03_fresh_manager_bisimilar :
+    ∀ (s : Manager.MState) (ow : Bool),
+      Manager.MInv s →
+        s.frozen = false →
+          Manager.ExprDefs s.defs →
+            ∃ s',
+              Manager.load (Manager.freshOver s) ow (Manager.dump s) = (s', none) ∧
+                Manager.SameTable s s' ∧
+                  ∀ (sched1 sched2 : Manager.Sched) (cs : List Manager.Call),
+                    Manager.BisimRun sched1 sched2 s s' cs →
+                      Manager.RelatedOutcomes (Manager.outcomes sched1 s cs) (Manager.outcomes sched2 s' cs) ∧
+                        List.map (fun x => x.snd) (Manager.outcomes sched2 s' cs) =
+                            List.map (fun x => x.snd) (Manager.outcomes sched1 s cs) ∧
+                          Manager.SameTable (Manager.applyAll sched1 s cs) (Manager.applyAll sched2 s' cs) :=
+  @Manager.load_dump_bisim
+
+end wrapped
 
 end Properties.C03
